@@ -26,6 +26,81 @@ def _z(b):
     return b
 
 
+import sys as _sys
+
+_sys.setrecursionlimit(max(_sys.getrecursionlimit(), 50000))
+
+
+_CONSTS_MEMO = {}
+
+
+def _consts(t):
+    """Names of the uninterpreted constants occurring in t (memoised by AST id; terms kept alive)."""
+    k = t.get_id()
+    r = _CONSTS_MEMO.get(k)
+    if r is not None:
+        return r[1]
+    if z3.is_const(t):
+        out = frozenset([t.decl().name()]) if t.decl().kind() == z3.Z3_OP_UNINTERPRETED else frozenset()
+    else:
+        out = frozenset()
+        for c in t.children():
+            out = out | _consts(c)
+    if len(_CONSTS_MEMO) > 2000000:
+        _CONSTS_MEMO.clear()
+    _CONSTS_MEMO[k] = (t, out)
+    return out
+
+
+class LinearAbstraction:
+    """Over-approximation: every non-linear subterm (product of two non-numerals, division by a
+    non-numeral, power, uninterpreted application) is replaced by a fresh real, the same term always
+    by the same variable. If the abstracted query is unsat the original is unsat (sound for proving);
+    a sat answer of the abstraction means nothing and the exact query is then asked."""
+
+    def __init__(self):
+        self.memo = {}
+        self.fresh = {}
+
+    def _var(self, t):
+        k = t.get_id()
+        v = self.fresh.get(k)
+        if v is None:
+            v = (t, z3.Real(f"nl!{len(self.fresh)}"))
+            self.fresh[k] = v
+        return v[1]
+
+    def conv(self, t):
+        k = t.get_id()
+        r = self.memo.get(k)
+        if r is not None:
+            return r[1]
+        r = self._conv(t)
+        self.memo[k] = (t, r)
+        return r
+
+    def _conv(self, t):
+        if not z3.is_app(t) or t.num_args() == 0:
+            return t
+        kind = t.decl().kind()
+        ch = t.children()
+        if kind == z3.Z3_OP_MUL:
+            nonnum = [c for c in ch if not (z3.is_rational_value(c) or z3.is_int_value(c))]
+            if len(nonnum) >= 2:
+                return self._var(t)
+            return z3.Product(*[self.conv(c) for c in ch]) if len(ch) > 1 else self.conv(ch[0])
+        if kind == z3.Z3_OP_DIV:
+            if z3.is_rational_value(ch[1]) or z3.is_int_value(ch[1]):
+                return self.conv(ch[0]) / ch[1]
+            return self._var(t)
+        if kind in (z3.Z3_OP_POWER, z3.Z3_OP_UNINTERPRETED):
+            return self._var(t)
+        new = [self.conv(c) for c in ch]
+        if all(a.eq(b) for a, b in zip(new, ch)):
+            return t
+        return t.decl()(*new)
+
+
 class QueryResult:
     def __init__(self, name, verdict, model, secs, tags=None, detail=None):
         self.name, self.verdict, self.model, self.secs = name, verdict, model, secs
@@ -102,7 +177,37 @@ class Session:
     def prove(self, name, assumptions, claim, timeout_ms=None, tags=None, expect=None):
         """Query assumptions /\\ not claim. Returns QueryResult (holds iff unsat)."""
         cs = [_z(a) for a in assumptions] + [z3.Not(_z(claim))]
+        # stage A0: only the assumptions over the claim's own variables (sound: fewer assumptions)
+        dtA = 0.0
+        if not z3.is_false(cs[-1]) and not (tags or {}).get("exact_only") and len(cs) > 3:
+            try:
+                cv = _consts(cs[-1])
+                if 0 < len(cv) <= 6:
+                    sub = [c for c in cs[:-1] if _consts(c) <= cv]
+                    if len(sub) < len(cs) - 1:
+                        v0, _, dt0 = self._solve(sub + [cs[-1]], 3000)
+                        dtA += dt0
+                        if v0 == "unsat":
+                            qr = QueryResult(name, "unsat", None, dtA, dict(tags or {}, stage="cone-of-influence"))
+                            self.results.append(qr)
+                            return qr
+            except z3.Z3Exception:
+                pass
+        # stage A: linear abstraction of the same query (sound over-approximation), short budget
+        if not z3.is_false(cs[-1]) and not (tags or {}).get("exact_only"):
+            try:
+                la = LinearAbstraction()
+                acs = [la.conv(c) for c in cs]
+                vA, _, dtA1 = self._solve(acs, min(5000, timeout_ms or self.timeout_ms))
+                dtA += dtA1
+                if vA == "unsat":
+                    qr = QueryResult(name, "unsat", None, dtA, dict(tags or {}, stage="linear-abstraction"))
+                    self.results.append(qr)
+                    return qr
+            except (z3.Z3Exception, RecursionError):
+                pass
         verdict, model, dt = self._solve(cs, timeout_ms or self.timeout_ms)
+        dt += dtA
         if verdict == "unknown":
             # second opinion with the nlsat-based tactic / simplification
             try:
